@@ -86,8 +86,11 @@ func parseVersion1(reader *bufio.Reader) (*Header, error) {
 		header.TransportProtocol = TCPv4
 	case "TCP6":
 		header.TransportProtocol = TCPv6
-	default:
+	case "UNKNOWN":
 		header.TransportProtocol = UNSPEC
+	default:
+		state.ProxyErrInvalidHeader.Inc(1)
+		return nil, ErrUnsupportedAddressFamilyAndProtocol
 	}
 
 	// Read addresses and ports
